@@ -29,6 +29,9 @@ CLAIMS = {
  "C13": dict(cat="exploration", tech="rapid generation of install/upgrade/rollback chains with a reference ledger of (user values, defaults in force); leaf-path comparison with stored Config and with a probe template's rendered .Values",
    text="Chains of upgrades with every values flag, fresh value trees (nulls, empty tables, type changes), changing chart defaults and occasional failing upgrades, on the Secret backend; recorded values and what the templates saw are compared with a reference ledger.",
    note="Single-level charts; JSON-native values; one genuine defect (reuse-values bakes effective values into chart defaults) listed as known finding."),
+ "C11": dict(cat="exploration", tech="rapid generation of dependency trees (aliases, repeated charts, conditions, tags, globals, rejecting schemas) with sentinel leaves; independent enablement rule and scope reference; metamorphic sibling change",
+   text="Generated dependency trees up to depth three rendered through a client-only dry-run install; the rendered probes, hooks, CRDs and schema enforcement must match an independent implementation of the documented enablement rule and value scoping; sentinel leak search and a metamorphic sibling change need no reference.",
+   note="Tags read from the top-level table; two genuine defects around nested aliases listed as known findings (their combination is excluded by construction)."),
  "C12": dict(cat="exploration", tech="rapid history generation over hook sets with one failing hook; reference model of documented hook semantics compared against the global request/wait order",
    text="Generated hook sets (events, weights with ties, shuffled names, kinds, all delete-policy combinations) across histories with a chosen hook failing; order, gating, delete policies and leftovers are compared with a reference model.",
    note="Hook completion is a scripted waiter outcome; simulated world as C01."),
